@@ -399,6 +399,49 @@ pub fn c01u_ops<const N: usize>() {
     vf::check(m.len() <= m.capacity() && m.capacity() == N && m.is_empty() == (md.n == 0), 206);
 }
 
+/// Capacities far beyond the symbolic-state harnesses (N = 18 .. 72): word-size, block-size and length-dependent special
+/// cases (a 64-bit mask, a scan in blocks of 8, a `len >= 16` fast path).  The pre-state is *concrete* (F pairs with fixed,
+/// pairwise different keys, so the construction constant-folds in the symbolic execution); then ONE solver-chosen operation with
+/// solver-chosen arguments runs against the model (a second symbolic step makes the state symbolic and costs as much as the
+/// symbolic-state harnesses, which stop at N = 12).  Every slot position is covered because the key is symbolic; fill levels
+/// are the const parameter F (one obligation each).
+pub fn c01w_ops<const N: usize, const F: usize>() {
+    // `Map::new()`, not `empty_map()`: a solver-chosen `len` (even one assumed to be 0) would make the whole construction symbolic
+    let mut m: micromap::Map<u8, u8, N> = micromap::Map::new();
+    let mut md = Model::<N>::new();
+    let mut i = 0;
+    while i < F { let k = wide_key(i); md.insert(k, i as u8, 0, 0); vf::check(m.insert(k, i as u8).is_none(), 100); i += 1; }
+    // a concrete pre-shuffle: the pair in slot F/3 is removed (the last pair moves into its slot) and inserted again (at the end)
+    if F >= 3 { let k = wide_key(F / 3); let e = md.remove(k); vf::check(m.remove(&k) == e.map(|x| x.1), 100); md.insert(k, 7, 0, 0); vf::check(m.insert(k, 7).is_none(), 100); }
+    let mut step = 0;
+    while step < 1 {
+        let (op, k, v) = (vf::any_u8(), vf::any_u8(), vf::any_u8());
+        vf::assume(op < 11);
+        match op {
+            0 => { vf::assume(md.n < N || md.has(k)); vf::reach(1); let e = md.insert(k, v, 0, 0); vf::check(m.insert(k, v) == e.map(|x| x.0), 401); }
+            1 => { let rejected = md.n == N && !md.has(k); let r = m.checked_insert(k, v); if rejected { vf::check(r.is_none(), 421); } else { let e = md.insert(k, v, 0, 0); vf::check(r == Some(e.map(|x| x.0)), 422); } }
+            2 => { vf::assume(md.n < N || md.has(k)); let e = md.insert_kv(k, v, 0, 0); vf::check(m.insert_key_value(k, v) == e.map(|x| (k, x.1)), 411); }
+            3 => { vf::reach(2); let e = md.remove(k); vf::check(m.remove(&k) == e.map(|x| x.1), 451); }
+            4 => { let e = md.remove(k); vf::check(m.remove_entry(&k) == e.map(|x| (k, x.1)), 461); }
+            5 => { m.retain(|kk, vv| { *vv = vv.wrapping_add(0); keep(k, *kk) }); md.retain(k); }
+            6 => { vf::check(m.get(&k).copied() == md.get(k) && m.contains_key(&k) == md.has(k) && m.get_key_value(&k).map(|p| (*p.0, *p.1)) == md.get(k).map(|x| (k, x)), 431);
+                   if let Some(r) = m.get_mut(&k) { *r = v; let i = md.find(k).unwrap(); md.vals[i] = v; } }
+            7 => { vf::assume(md.n < N || md.has(k)); let had = md.has(k); let r = *m.entry(k).or_insert(v); if !had { md.insert(k, v, 0, 0); } vf::check(Some(r) == md.get(k), 1102); }
+            8 => { if md.has(k) { vf::check(m[&k] == md.get(k).unwrap(), 441); m[&k] = v; let i = md.find(k).unwrap(); md.vals[i] = v; vf::check(m.get(&k) == Some(&v), 444); } }
+            9 => { vf::assume(md.n < N || md.has(k)); let e = md.insert(k, v, 0, 0); vf::check(unsafe { m.insert_unchecked(k, v) } == e.map(|x| x.0), 1801); }
+            _ => { let c = m.clone(); vf::check(c == m && m == c, 1502); vf::check(c.len() == md.n && c.get(&k).copied() == md.get(k), 1501); }
+        }
+        step += 1;
+    }
+    vf::reach(3);
+    same_u8_map(&m, &md);
+    // every stored pair, by iteration: exactly the model's pairs
+    let mut t = 0usize;
+    for (a, b) in m.iter() { t += 1; vf::check(md.get(*a) == Some(*b), 207); }
+    vf::check(t == md.n, 202);
+    vf::check(m.len() <= m.capacity() && m.capacity() == N && m.is_empty() == (md.n == 0), 206);
+}
+
 /// zero-sized key and value (`Map<(), (), N>`): every slot has the same address and nothing is ever copied; the
 /// map holds one entry at most.  Three solver-chosen operations against a one-bit model.
 pub fn c01_zst<const N: usize>() {
@@ -490,8 +533,10 @@ harnesses! {
     c01_drain_all: [0] [1] [2] [3];
     c01_hist: [2, 2];
     c01u_ops: [4] [6] [8];
+    c01w_ops: [18, 17] [18, 16];
     @deep
     c01u_ops: [10] [12];
+    c01w_ops: [34, 33] [34, 32] [66, 66] [72, 65] [72, 64];
     c01_hist: [2, 3] [3, 3] [3, 4];
     c06_refs: [4];
     c06_refs_set: [4];
